@@ -23,7 +23,7 @@ REPO = os.environ.get("VERIF_REPO", "/repo")
 BUILD = os.environ.get("VERIF_BUILD", os.path.join(VERIF, "build"))
 COQ = os.path.join(VERIF, "coq")
 OUT = os.path.join(VERIF, "out")          # replay files, logs (git-ignored)
-EVID = os.path.join(VERIF, "evidence")
+EVID = os.environ.get("VERIF_EVID", os.path.join(VERIF, "evidence"))
 NCPU = os.cpu_count() or 4
 
 LIB_FILES = """util ringbuffer ringbuffer_helper unix array hdb map hashtable skiplist trie
@@ -32,6 +32,9 @@ log_blackbox log_file log_syslog ipcc ipcs ipc_shm ipc_setup ipc_socket strlcpy 
 
 ASAN_FLAGS = ["-O1", "-g", "-fno-omit-frame-pointer", "-fsanitize=address,undefined",
               "-fno-sanitize-recover=all"]
+if os.environ.get("VERIF_COV"):
+    # tools/coverage.py: same builds with gcov instrumentation added (a development aid, never part of a check)
+    ASAN_FLAGS = ASAN_FLAGS + ["--coverage"]
 BASE_CPP = ["-DHAVE_CONFIG_H", "-pthread"]
 
 
@@ -223,7 +226,8 @@ def gen_consts():
                 except OSError:
                     pass
             lib = build_lib()
-            rc, out = sh(["gcc", "-O0", "-g", "-fsanitize=address,undefined", "-w"] + BASE_CPP + inc_flags() +
+            rc, out = sh(["gcc", "-O0", "-g", "-fsanitize=address,undefined", "-w"] +
+                         (["--coverage"] if os.environ.get("VERIF_COV") else []) + BASE_CPP + inc_flags() +
                          [src, lib, "-o", exe, "-ldl", "-lrt", "-lm"], timeout=300)
             if rc != 0:
                 raise BrokenInput("consts/%s.c does not compile against the current tree:\n%s" % (name, out[-3000:]))
